@@ -199,6 +199,13 @@ func (m *Ideal) Add(p string, got error, calls []vsys.Call, pos int64) {
 	}
 	if wd < 0 {
 		m.problem("marks", "Add returned nil without registering a kernel watch", fmt.Sprintf("Add(%q): syscalls %+v", p, calls))
+		if e := m.bySpelling[cp]; e != nil && e.Ino != ino {
+			// the listed path names another file by now: the Add that just returned was for that file, so whatever
+			// the old file's watch goes on reporting is no longer about this path (C02), and nothing watches the new one
+			delete(m.byWd, e.Wd)
+			delete(m.bySpelling, cp)
+			m.retired[e.Wd] = retiredWd{&Entry{Spelling: e.Spelling, Wd: e.Wd, Ino: e.Ino}, pos}
+		}
 		return
 	}
 	m.wdIno[wd] = ino
